@@ -36,6 +36,40 @@ def worker(args):
     return dict(structure=True, calls=calls)
 
 
+def _validate(calls, sub):
+    os.makedirs(sub, exist_ok=True)
+    p = os.path.join(sub, "traces.json")
+    with open(p, "w") as f:
+        json.dump([dict(id=i + 1, ev=c["ev"]) for i, c in enumerate(calls)], f)
+    r = vlib.run_tlc("TrsboxLinearTrace.tla", "TrsboxLinearTrace.cfg", sub, workers=1, heap="2g", env={"TRACE_FILE": p}, timeout=1800)
+    if not r["ok"]:
+        raise vlib.MachineryError("trace validation against TrsboxLinearTrace.tla did not complete:\n%s" % r["out"][-2000:])
+    return {int(rec[1]): set(c for c, _ in rec[2]) for rec in vlib.extract_printed(r["out"], "DONE")}
+
+
+def selftest(calls, sub):
+    """corrupted copies of accepted calls must be rejected with the expected clause (the binding can say no)"""
+    import copy
+    muts, want = [], []
+    for c in [c for c in calls if len(c["ev"]) >= 3][:30]:
+        a = copy.deepcopy(c["ev"])
+        del a[1]
+        muts.append(dict(ev=a))
+        want.append({"trsbox_linear_step_not_in_spec"})
+        if c["ev"][-1]["cons"]:
+            b = copy.deepcopy(c["ev"])
+            b[-1]["cons"] = b[-1]["cons"][1:]
+            muts.append(dict(ev=b))
+            want.append({"trsbox_linear_direction_released", "trsbox_linear_inv_cons_count", "trsbox_linear_step_not_in_spec"})
+    if not muts:
+        return dict(corrupted=0, rejected=0)
+    got = _validate(muts, sub)
+    for i, w in enumerate(want):
+        if not (w & got.get(i + 1, set())):
+            raise vlib.MachineryError("TrsboxLinearTrace.tla accepted a corrupted call (expected one of %s, got %s)" % (sorted(w), sorted(got.get(i + 1, set()))))
+    return dict(corrupted=len(muts), rejected=len(muts))
+
+
 def part(V, tier, wd, patterns):
     import multiprocessing as mp
     mc = model_check(os.path.join(wd, "lin_model"), 4 if tier == "quick" else 6)
@@ -67,5 +101,6 @@ def part(V, tier, wd, patterns):
                 if shown < 3:
                     shown += 1
                     print("NOTE: monitored trsbox_linear call %s: %s at snapshot %s - the kernel's active-set bookkeeping departs from TrsboxLinear.tla (conformance, not a verdict)" % (rec[1], clause, l))
-    return dict(model=mc, loop_structure_recognised=all(r["structure"] for r in res), monitored_calls=len(calls), snapshots=sum(len(c["ev"]) for c in calls), tlc_states=gen,
+    st = selftest(calls, os.path.join(wd, "lin_selftest")) if calls and not notes else dict(corrupted=0, rejected=0)
+    return dict(model=mc, binding_selftest=st, loop_structure_recognised=all(r["structure"] for r in res), monitored_calls=len(calls), snapshots=sum(len(c["ev"]) for c in calls), tlc_states=gen,
                 max_passes=max([max(e["i"] for e in c["ev"]) for c in calls] or [0]), conformance_notes=notes)
